@@ -145,6 +145,43 @@ func c16FindReaders(c *kit.Ctx) []*c16Reader {
 		rd.prepare()
 		out = append(out, rd)
 	}
+	// stages that only serve the leftover buffer (a reader split over several
+	// methods): leftover.Read into a view of the []byte parameter, no device read
+	if len(out) > 0 {
+		for _, f := range c.P.Funcs("client") {
+			recv := c16RecvVar(f)
+			if recv == nil || f.Body == nil {
+				continue
+			}
+			dup := false
+			for _, r := range out {
+				if r.f == f {
+					dup = true
+				}
+			}
+			bufs := c16BufferFields(recv)
+			if dup || len(bufs) != 1 {
+				continue
+			}
+			for _, p := range f.Params() {
+				if !c16IsByteSlice(p.Type()) {
+					continue
+				}
+				rd := &c16Reader{f: f, recv: recv, buf: p, lo: bufs[0]}
+				serves := false
+				for _, call := range f.AllCalls(false) {
+					if rd.loMethod(call) == "Read" && len(call.Args) == 1 && kit.IsViewOf(f.Info(), c16Resolve(f, call.Args[0]), p) {
+						serves = true
+					}
+				}
+				if serves {
+					rd.prepare()
+					out = append(out, rd)
+					break
+				}
+			}
+		}
+	}
 	return out
 }
 
@@ -343,6 +380,11 @@ func (rd *c16Reader) lossy(e ast.Expr) string {
 	return ""
 }
 
+// isDevRead: the call reads the wrapped device of this reader.
+func (rd *c16Reader) isDevRead(call *ast.CallExpr) bool {
+	return rd.dev != nil && c16IfaceCall(rd.f, rd.recv, call, "Read") == rd.dev
+}
+
 // isLeftover: `<recv>.<lo>` (optionally behind & or parentheses).
 func (rd *c16Reader) isLeftover(e ast.Expr) bool {
 	e = ast.Unparen(e)
@@ -469,6 +511,12 @@ func c16Add(list *[]string, msg string) {
 	*list = append(*list, msg)
 }
 
+type c16CanonLoop struct {
+	rz     string
+	region string
+	lo     kit.Affine
+}
+
 type c16Decode struct {
 	call *ast.CallExpr
 	arg  ast.Expr
@@ -505,8 +553,9 @@ type c16Flow struct {
 	ss  c16Sites
 	// write-only buffers: local variables made by bytes.NewBuffer whose every use is a write
 	writeOnly map[types.Object]bool
-	pure      map[*kit.Func]bool // same-package helpers evaluated inline
-	decodes   []c16Decode        // decode calls whose count is bound to a variable
+	pure      map[*kit.Func]bool            // same-package helpers evaluated inline
+	canon     map[types.Object]c16CanonLoop // counting loops over the buffer / leftover bytes, by counter
+	decodes   []c16Decode                   // decode calls whose count is bound to a variable
 }
 
 func (fl *c16Flow) intern(a kit.Affine) string {
@@ -812,7 +861,7 @@ func (fl *c16Flow) dropPrefix(s kit.S, pre string) kit.S {
 // whose current value is not otherwise known, substituting the equalities the
 // state carries ("q:eq:<var>").
 func (fl *c16Flow) value(e ast.Expr, s kit.S) (kit.Affine, bool) {
-	a, ok := fl.rd.aff(e)
+	a, ok := fl.rd.aff(fl.rw(e))
 	if !ok {
 		return a, false
 	}
@@ -1298,6 +1347,9 @@ func (fl *c16Flow) judgeFirstRead(s kit.S, call *ast.CallExpr, L kit.Affine, okL
 		case s.Get("q:lowo") != "":
 			return c16V("viol", "the leftover bytes are written to a bytes.NewBuffer object that is never read (%s): Write appends behind the wrapped slice, nothing reaches b[0:], and the leftover buffer is not drained before the device read", s.Get("q:lowo"))
 		}
+		if callers := fl.inPackageCallers(); callers != "" {
+			return c16V("undec", "%s reads the device without looking at the leftover buffer, but it is called from %s: whether the leftover bytes were served or moved before is decided there (a split reader is not followed across functions)", rd.f.Name, callers)
+		}
 		return c16V("viol", "the device is read while bytes may remain in the leftover buffer: they are neither returned as a frame nor moved into the caller's buffer on this path")
 	}
 	parts := strings.SplitN(mv, "|", 2)
@@ -1385,7 +1437,7 @@ func (fl *c16Flow) run() {
 
 	st.OnCall = func(call *ast.CallExpr, n ast.Node, s kit.S) []kit.S {
 		// device read
-		if c16IfaceCall(f, rd.recv, call, "Read") == rd.dev && len(call.Args) == 1 && fl.isView(call.Args[0]) {
+		if rd.isDevRead(call) && len(call.Args) == 1 && fl.isView(call.Args[0]) {
 			lo, hi, ok := fl.viewBounds(call.Args[0], s)
 			if ok {
 				for o := range rd.unsafe {
@@ -1570,7 +1622,7 @@ func (fl *c16Flow) run() {
 			trackedRead := false
 			if len(y.Rhs) == 1 {
 				if call, ok := ast.Unparen(y.Rhs[0]).(*ast.CallExpr); ok {
-					trackedRead = c16IfaceCall(f, rd.recv, call, "Read") == rd.dev || rd.loMethod(call) == "Read"
+					trackedRead = rd.isDevRead(call) || rd.loMethod(call) == "Read"
 				}
 			}
 			var ups []upd
@@ -1644,7 +1696,7 @@ func (fl *c16Flow) run() {
 						}
 					}
 					switch {
-					case c16IfaceCall(f, rd.recv, call, "Read") == rd.dev:
+					case rd.isDevRead(call):
 						s = s.Set("q:devC", first)
 						if len(y.Lhs) == 2 {
 							if eo := kit.ObjOf(info, y.Lhs[1]); eo != nil {
@@ -1684,12 +1736,17 @@ func (fl *c16Flow) run() {
 			}
 		case *ast.ExprStmt:
 			if call, ok := ast.Unparen(y.X).(*ast.CallExpr); ok {
-				if c16IfaceCall(f, rd.recv, call, "Read") == rd.dev {
+				if rd.isDevRead(call) {
 					s = s.Set("q:devC", "_")
 				}
 			}
 		case *ast.IncDecStmt:
 			if o := kit.ObjOf(info, y.X); o != nil {
+				if cl, ok := fl.canon[o]; ok && s.Get(cl.rz) == "1" {
+					if s.Get("a:z:"+cl.region+":"+fl.intern(cl.lo.Add(kit.AffVar(o)))) != "T" {
+						s = s.Set(cl.rz, "0")
+					}
+				}
 				was := s.Get("q:opq:"+kit.VarToken(o)) != ""
 				s = fl.invalidate(s, o)
 				if was {
@@ -1728,7 +1785,9 @@ func (fl *c16Flow) run() {
 					if !c16IsIntExpr(info, res) {
 						continue
 					}
-					if v, ok := fl.value(fl.rw(res), s); ok {
+					// (not substituted: what the state knows about the helper's locals is
+					// dropped when it returns, the facts stated over them stay)
+					if v, ok := fl.rd.aff(fl.rw(res)); ok {
 						s = s.Set(fmt.Sprintf("q:ret:%d", i), fl.intern(v))
 					} else {
 						s = s.Del(fmt.Sprintf("q:ret:%d", i))
@@ -1740,7 +1799,15 @@ func (fl *c16Flow) run() {
 		}
 		if as, ok := n.(*ast.AssignStmt); ok && len(as.Lhs) == 1 && len(as.Rhs) == 1 && (as.Tok == token.ASSIGN || as.Tok == token.DEFINE) {
 			if out, ok := fl.evalBoolAssign(s, as.Lhs[0], as.Rhs[0]); ok {
+				for i := range out {
+					out[i] = fl.noteFlagEvidence(out[i], as.Lhs[0])
+				}
 				return out
+			}
+		}
+		if as, ok := n.(*ast.AssignStmt); ok {
+			for _, l := range as.Lhs {
+				s = fl.noteFlagEvidence(s, l)
 			}
 		}
 		return []kit.S{s}
@@ -1752,40 +1819,75 @@ func (fl *c16Flow) run() {
 			return nil, nil, false
 		}
 		cur := st.Cur()
-		if fl.c.P.Parent(cur.File, br.Range) == nil {
-			return nil, nil, false // a counting loop offered as a range: its condition is decided as such
-		}
+		synthetic := fl.c.P.Parent(cur.File, br.Range) == nil // a canonical counting loop offered as a range
 		ts := s
-		// every iteration re-binds key and value
-		if br.Range.Key != nil {
-			ts = fl.invalidate(ts, kit.ObjOf(info, br.Range.Key))
-		}
-		if br.Range.Value != nil {
-			ts = fl.invalidate(ts, kit.ObjOf(info, br.Range.Value))
-		}
-		// over a view of the caller's buffer or the leftover bytes the key is below
-		// the length of the view: an interpreted decision
-		var n kit.Affine
-		known := false
+		ko := kit.ObjOf(info, br.Range.Key)
+		// what the loop runs over: a view of the caller's buffer or the leftover bytes
+		var n, lo kit.Affine
+		region, known := "", false
 		x := st.Resolve(br.Range.X)
 		if fl.isView(x) {
-			if lo, hi, ok := fl.viewBounds(x, s); ok {
-				n, known = hi.Sub(lo), true
+			if l0, hi, ok := fl.viewBounds(x, s); ok {
+				n, lo, region, known = hi.Sub(l0), l0, "b", true
 			}
 		} else if o := kit.ObjOf(info, x); o != nil && rd.lbVars[o] {
-			n, known = kit.AffLen(o), true
+			n, region, known = kit.AffLen(o), "l", true
 		} else if call, ok := ast.Unparen(x).(*ast.CallExpr); ok && rd.loMethod(call) == "Bytes" {
-			known = true // length not named: no bound fact, but an interpreted decision
-			n = kit.Affine{}
+			region, known = "l", true // length not named: no bound fact, but an interpreted decision
+		}
+		fsOut := s
+		if known && ko != nil && c16IntVar(ko) && !rd.unsafe[ko] {
+			// "every element visited so far was zero": kept while each finished iteration
+			// established <region>[lo+key] == 0 (checked here for range loops, at the
+			// post statement for counting loops)
+			rz := fmt.Sprintf("q:rz:%d", br.Range.Body.Pos())
+			in := fmt.Sprintf("q:in:%d", br.Range.Body.Pos())
+			zk := "a:z:" + region + ":" + fl.intern(lo.Add(kit.AffVar(ko)))
+			if synthetic {
+				fl.canon[ko] = c16CanonLoop{rz: rz, region: region, lo: lo}
+				if !s.Has(rz) {
+					ts = ts.Set(rz, "1")
+					fsOut = fsOut.Set(rz, "1")
+				}
+			} else {
+				switch {
+				case !s.Has(in):
+					ts = ts.Set(rz, "1").Set(in, "1")
+					fsOut = fsOut.Set(rz, "1")
+				case s.Get(zk) != "T":
+					ts = ts.Set(rz, "0")
+					fsOut = fsOut.Set(rz, "0")
+				}
+			}
+			if fsOut.Get(rz) == "1" {
+				if region == "l" {
+					fsOut = fsOut.Set("q:exhL", "1")
+				} else if k, isC := fl.substEq(lo, s).Const(); isC && k == 0 {
+					fsOut = fsOut.Set("q:exh", fl.intern(fl.substEq(n, s)))
+				}
+			}
+			fsOut = fsOut.Del(rz).Del(in)
+		}
+		if !synthetic {
+			// every iteration re-binds key and value
+			if br.Range.Key != nil {
+				ts = fl.invalidate(ts, ko)
+			}
+			if br.Range.Value != nil {
+				ts = fl.invalidate(ts, kit.ObjOf(info, br.Range.Value))
+			}
 		}
 		if known {
-			if ko := kit.ObjOf(info, br.Range.Key); ko != nil && c16IntVar(ko) && !rd.unsafe[ko] && len(n.Terms)+int(c16Abs(n.K)) > 0 {
+			if ko != nil && c16IntVar(ko) && !rd.unsafe[ko] && len(n.Terms)+int(c16Abs(n.K)) > 0 {
 				ts = ts.Set("a:c:lt:"+fl.intern(kit.AffVar(ko).Sub(n)), "T")
 			}
-			return []kit.S{ts}, []kit.S{s}, true
+			return []kit.S{ts}, []kit.S{fsOut}, true
+		}
+		if synthetic {
+			return nil, nil, false // decided as the comparison it is
 		}
 		why := "range at " + cur.At(br.Range)
-		return []kit.S{ts.Set("q:unk", why)}, []kit.S{s.Set("q:unk", why)}, true
+		return []kit.S{ts.Set("q:unk", why)}, []kit.S{fsOut.Set("q:unk", why)}, true
 	}
 	st.Eval.Consistent = func(s kit.S) bool {
 		_, _, feasible := fl.leftoverLen(s)
@@ -1875,6 +1977,12 @@ func (fl *c16Flow) onReturn(r *ast.ReturnStmt, s kit.S, key string) {
 			var idx int
 			fmt.Sscanf(v, "%d", &idx)
 			emit(fl.judgeDelivery(s, fl.decodes[idx].call, fl.decodes[idx].arg))
+			return
+		}
+	}
+	// a stage that only serves the leftover buffer hands the moved count to its caller
+	if rd.dev == nil && s.Get("q:phase") != "dev" {
+		if o := kit.ObjOf(info, r.Results[0]); o != nil && s.Get("q:mvC") == kit.VarToken(o) {
 			return
 		}
 	}
@@ -2290,12 +2398,18 @@ func c16JudgeWriter(c *kit.Ctx, f *kit.Func, o *kit.Ob, payload *types.Var, writ
 		return true, true
 	}
 	judgeArg := func(e ast.Expr) (string, string) {
+		e0 := e
 		e = ast.Unparen(c16Resolve(f, e))
 		if k, m := isEncodeOfPayload(e); k != "undec" || m != "not a call of Encode" {
 			return k, m
 		}
 		call, ok := e.(*ast.CallExpr)
 		if ok {
+			if bi, isB := kit.Callee(info, call).(*types.Builtin); isB && bi.Name() == "make" {
+				if k, m, is := c16MakeCopyFrame(c, f, e0, call, payload, qEncode); is {
+					return k, m
+				}
+			}
 			if h := f.CalleeFunc(call); h != nil && h.Body != nil && h != f && h.Pkg == f.Pkg {
 				if k, m, is := c16FrameHelper(c, f, h, call, payload, qEncode); is {
 					return k, m
@@ -2408,7 +2522,7 @@ func runC16(c *kit.Ctx) {
 	}
 	for _, rd := range readers {
 		c.Analysed(rd.f)
-		fl := &c16Flow{c: c, rd: rd, tab: map[string]kit.Affine{}, writeOnly: map[types.Object]bool{}}
+		fl := &c16Flow{c: c, rd: rd, tab: map[string]kit.Affine{}, writeOnly: map[types.Object]bool{}, canon: map[types.Object]c16CanonLoop{}}
 		fl.run()
 		keys := append([]string(nil), fl.ss.order...)
 		sort.Strings(keys)
@@ -2559,6 +2673,72 @@ func c16FrameHelper(c *kit.Ctx, f, h *kit.Func, call *ast.CallExpr, payload *typ
 			}
 		}
 		return "undec", fmt.Sprintf("%s returns %s, a shape the rule does not recognise", h.Name, h.Str(r.Results[0])), true
+	}
+	return "ok", "", true
+}
+
+// c16MakeCopyFrame judges `w := make([]byte, K+len(enc)); copy(w[K:], enc)`
+// with enc := Encode(<payload>) in function f; e0 is the (unresolved) use of w.
+func c16MakeCopyFrame(c *kit.Ctx, f *kit.Func, e0 ast.Expr, mk *ast.CallExpr, payload *types.Var, qEncode string) (kind, msg string, is bool) {
+	info := f.Info()
+	fv := kit.ObjOf(info, e0)
+	if fv == nil || len(mk.Args) != 2 {
+		return "", "", false
+	}
+	encOf := func(e ast.Expr) bool {
+		cc, ok := ast.Unparen(c16Resolve(f, e)).(*ast.CallExpr)
+		return ok && kit.CallIs(info, cc, qEncode) && len(cc.Args) == 1 && kit.ObjOf(info, cc.Args[0]) == payload
+	}
+	size, ok := kit.AffineOf(info, mk.Args[1])
+	if !ok {
+		return "undec", fmt.Sprintf("the size %s of the frame buffer is not linear", f.Str(mk.Args[1])), true
+	}
+	copies, other := 0, false
+	var K int64
+	var src ast.Expr
+	ast.Inspect(f.Body, func(n ast.Node) bool {
+		switch x := n.(type) {
+		case *ast.CallExpr:
+			if b2, isB := kit.Callee(info, x).(*types.Builtin); isB && b2.Name() == "copy" && len(x.Args) == 2 {
+				if se, ok := ast.Unparen(x.Args[0]).(*ast.SliceExpr); ok && kit.ObjOf(info, se.X) == fv && se.High == nil && !se.Slice3 {
+					k := int64(0)
+					if se.Low != nil {
+						kk, isC := kit.ConstInt(info, se.Low)
+						if !isC {
+							other = true
+						}
+						k = kk
+					}
+					copies++
+					K, src = k, x.Args[1]
+					return false
+				}
+			}
+		case *ast.AssignStmt:
+			for _, l := range x.Lhs {
+				if ix, ok := ast.Unparen(l).(*ast.IndexExpr); ok && kit.ObjOf(info, ix.X) == fv {
+					other = true // an element of the frame is written
+				}
+			}
+		case *ast.UnaryExpr:
+			if x.Op == token.AND && kit.ObjOf(info, x.X) == fv {
+				other = true
+			}
+		}
+		return true
+	})
+	if copies != 1 || other || src == nil || !encOf(src) {
+		return "undec", "the frame buffer is filled in a way the rule does not follow", true
+	}
+	so := kit.ObjOf(info, src)
+	if so == nil {
+		return "undec", "the encoded bytes are not held in a variable", true
+	}
+	want := kit.AffLen(so).AddK(K)
+	if d, isC := size.Sub(want).Const(); !isC {
+		return "undec", fmt.Sprintf("cannot relate the frame size %s to %d + len(%s)", f.Str(mk.Args[1]), K, so.Name()), true
+	} else if d < 0 {
+		return "viol", fmt.Sprintf("the frame buffer has %d byte(s) less than %d + len(%s): the end of the encoded frame (its terminator) is cut off", -d, K, so.Name()), true
 	}
 	return "ok", "", true
 }
